@@ -64,9 +64,15 @@ def aggVal (item : SelItem) (fields : List Field) (grp : List Row) : Option Val 
       let xs ← grp.mapM fun r => match r[i]? with | some (Tuple.Val.int x) => some x | _ => none
       some (.int (roundDiv (xs.foldl (· + ·) 0) grp.length))
     | _ => none
-  | _ => match grp.head? with
-    | some r => itemVal item fields r
-    | none => none
+  | _ =>
+    -- a select-list element that is not an aggregate has a meaning in a grouping query only if it
+    -- evaluates on EVERY row of the group (otherwise the query is ill-typed) and has the SAME value
+    -- on every row of the group (otherwise it is not a valid grouping query: standard SQL forbids a
+    -- non-grouped, non-aggregated expression; `validateGroupBy` checks bare column references only).
+    -- Grouping columns are constant on their group, so valid grouping queries keep their meaning.
+    match grp.mapM fun r => itemVal item fields r with
+    | some (v :: vs) => if vs.all (· == v) then some v else none
+    | _ => none
 
 def distinctKeys (ks : List (List Val)) : List (List Val) := ks.eraseDups
 
